@@ -413,7 +413,10 @@ PROPS = {
                  "threshold, EvaluationDomain::{fft, ifft, coset_fft, coset_ifft} for n = 1,2,4,8 and input lengths 0, 1, n-1, n, n+1 "
                  "(zero padding; longer inputs are cut to the domain), LEMMA fft_round_trip (the four contract formulas are mutually inverse), "
                  "butterfly_chunk and parallel_butterfly_chunk == the radix-2 butterfly for thread counts 1,3,4,5,16,17 as an instance "
-                 "parameter (m up to 512).",
+                 "parameter (m up to 512); best_fft ABOVE its parallel threshold executed at n = 4..32 (128 thorough) with the local threshold constant lowered "
+                 "(bounded stand-in, the engine refuses any other use of the lowered constant); the four domain transforms END TO END (no callee contract below the entry, "
+                 "n <= 8 quick, <= 32 thorough). Size coverage: a length comparison against a constant that no instance reaches makes the run UNDECIDED unless recorded "
+                 "(two recorded sites, both in best_fft, reported under coverage.bounded).",
         "technique": "contract-based deductive verification: ring/trace contract checker on the real function bodies, instance by instance "
                      "(bounded in the vector length only) + Verus (powers_of, unbounded)",
         "level_note": "BOUNDED in length / domain size: each instance is exact for all element values but covers only the stated sizes. "
@@ -435,7 +438,7 @@ PROPS = {
                  "c <= max_constraints <=> npot(c + 6) + 6 <= max_degree; (b) bounded decompression: packed_size_limit == 857*mc + 30 or Err on "
                  "overflow; PackedCircuitReader::{take, unpack_array_len, is_empty} never read out of bounds, never grow the remaining input and "
                  "reject every non-array tag."
-                 "Also (R): the encoder's index assignment (from_composer: every selector value gets the table length at THAT moment unless present), scalar_map (an index once given is never reassigned), unpack_bounded (each collection under its own bound, scalars 11 per row), the row-replay loop of from_bytes (each row from its own tuple; the only carried state is the public-input cursor; every scalar through the canonical decoder), unpack_array_len per tag.",
+                 "Also (R): the encoder's index assignment (from_composer: every selector value gets the table length at THAT moment unless present; the packed header carries the flag as given and witnesses = number of allocated witnesses; row i carries the wire labels a, b, c, d of gate i and its tuple's index), scalar_map (an index once given is never reassigned), unpack_bounded (each collection under its own bound, scalars 11 per row), the row-replay loop of from_bytes (each row from its own tuple; the only carried state is the public-input cursor; every scalar through the canonical decoder), unpack_array_len per tag.",
         "technique": "contract-based deductive verification: Verus on the real functions annotated in place (overlay)",
         "level_note": "Not decided: byte identity of the keys of the two routes (from_composer / from_bytes reconstruction over hashbrown); "
                       "CompressedCircuit::from_bytes / unpack_bounded / validate_indices bodies are not yet under contract.",
